@@ -33,6 +33,31 @@ from ..encode import dec_enc, dec_dec
 PID = "C17"
 EPS = 1e-3
 NONFINITE = [0, 9999]
+PA_PER = {"bar": 1e5, "kPa": 1e3, "torr": 101325.0 / 760.0}
+
+
+def stored_isotherm(pygaps, st, adsorbate_name, rel_pressure, loading, T):
+    """The isotherm with relative pressures `rel_pressure`, stored in representation st (spec ApiStorage).  Absolute
+    representations use the adsorbate API's own saturation pressure; when none exists (supercritical) the relative
+    representation with the same temperature unit is used instead.  Returns (isotherm, name of the representation used)."""
+    import numpy
+    mode, unit, used = st["pressure_mode"], st["pressure_unit"], st["name"]
+    p = numpy.asarray(rel_pressure, dtype=float)
+    if mode == "absolute":
+        try:
+            psat = float(pygaps.Adsorbate.find(adsorbate_name).saturation_pressure(T))
+            p = p * psat / PA_PER[unit]
+        except Exception:
+            mode, unit, used = "relative", "none", "relative-" + ("K" if st["temperature_unit"] == "K" else "C")
+    elif mode == "relative%":
+        p = p * 100.0
+    iso = pygaps.PointIsotherm(pressure=list(p), loading=list(loading), material="hk-sample", adsorbate=adsorbate_name,
+                               temperature=T if st["temperature_unit"] == "K" else T - 273.15, temperature_unit=st["temperature_unit"],
+                               pressure_mode=mode, pressure_unit=None if unit == "none" else unit,
+                               loading_basis="molar", loading_unit="mmol", material_basis="mass", material_unit="g")
+    return iso, used
+
+
 KEYS = {"d": "molecular_diameter", "alpha": "polarizability", "chi": "magnetic_susceptibility", "ns": "surface_density",
         "rho": "liquid_density", "M": "adsorbate_molar_mass"}
 
@@ -145,7 +170,9 @@ def main(tier, seed):
             libenc = {k: enc(lib[KEYS[k]]) for k in ("d", "alpha", "chi", "ns")}
             if h["known"]:
                 audit.append((hid, {"k": "audit", "lib": libenc, "ref": {k: h[k] for k in ("d", "alpha", "chi", "ns")}}))
-            adsorbents[hid] = {"name": h["name"], "arg": h["name"], "enc": libenc, "dict": dict(lib), "cls": h["name"]}
+            # judged with the specification's reference constants; the library is driven by NAME (its own table)
+            refenc = {k: h[k] for k in ("d", "alpha", "chi", "ns")} if h["known"] else libenc
+            adsorbents[hid] = {"name": h["name"], "arg": h["name"], "enc": refenc, "dict": lib, "cls": h["name"]}
         else:
             e_ = {k: h[k] for k in ("d", "alpha", "chi", "ns")}
             adsorbents[hid] = {"name": h["name"], "arg": to_dict(h, ("d", "alpha", "chi", "ns")), "enc": e_,
@@ -169,6 +196,7 @@ def main(tier, seed):
 
     # ---- 5. run the library
     judge_q, meta = [], []
+    nstored = {}
     with Capture(pm) as cap:
         for i, s in enumerate(live):
             p = preps[i]
@@ -222,9 +250,10 @@ def main(tier, seed):
                 use_api = increasing and bool(numpy.all(pressure < 0.999)) and pick(s["id"] + 5, seed, 4)
                 if use_api:
                     entry = "api"
-                    iso = pygaps.PointIsotherm(pressure=pressure, loading=n, material="hk-sample", adsorbate="N2", temperature=T,
-                                               pressure_mode="relative", loading_basis="molar", loading_unit="mmol",
-                                               material_basis="mass", material_unit="g")
+                    st = space["api_storage"][(s["id"] // 12 + s["id"] + seed) % len(space["api_storage"])]
+                    iso, used = stored_isotherm(pygaps, st, "N2", pressure, n, T)
+                    nstored[used] = nstored.get(used, 0) + 1
+                    sigbase["stored_pressure_mode"] = iso.pressure_mode
                     out = pm.psd_microporous(iso, psd_model=s["model"], pore_geometry=s["geo"], material_model=H["arg"],
                                              adsorbate_model=A["dict"], p_limits=(None, None))
                     w, dist, cum = out["pore_widths"], out["pore_distribution"], out["pore_volume_cumulative"]
@@ -294,8 +323,10 @@ def main(tier, seed):
                 sigbase = {"site": "psd_microporous", "model": "HK", "geometry": "slit", "adsorbate_model": "database"}
                 s_ = {"id": 100000 + 10 * hi_ + step, "history": list(hist), "step": step + 1, "adsorbate": c["ads"], "T": c["T"]}
                 try:
-                    iso = pygaps.PointIsotherm(pressure=pressure, loading=n, material="hk-sample", adsorbate=c["obj"].name, temperature=c["T"],
-                                               pressure_mode="relative", loading_basis="molar", loading_unit="mmol", material_basis="mass", material_unit="g")
+                    st = space["api_storage"][(hi_ + 2 * step + seed) % len(space["api_storage"])]
+                    iso, used = stored_isotherm(pygaps, st, c["obj"].name, pressure, n, c["T"])
+                    nstored[used] = nstored.get(used, 0) + 1
+                    sigbase["stored_pressure_mode"] = iso.pressure_mode
                     out = pm.psd_microporous(iso, psd_model="HK", pore_geometry="slit", material_model="Carbon(HK)", adsorbate_model=None, p_limits=(None, None))
                 except Exception as e:
                     run.violation({**sigbase, "clause": "returns", "observed": "exception:" + exc_class(e)}, {"scenario": s_, "message": str(e)[:300]})
@@ -312,14 +343,14 @@ def main(tier, seed):
                                 "n": pr["n"], "ln1m": [enc(0.0) for _ in lnp], "L": [enc(x) for x in L], **ob, "w": [enc(x) for x in out["pore_widths"]],
                                 "dist": [enc(x) for x in out["pore_distribution"]], "cum": [enc(x) for x in out["pore_volume_cumulative"]], "chosen": pr["W"]})
                 meta.append((s_, sigbase, "api-history", "Carbon(HK)", L, [float(x) for x in pressure], [float(x) for x in out["pore_widths"]]))
-        run.set(adsorbate_histories=nhist)
+        run.set(adsorbate_histories=nhist, psd_microporous_runs_by_stored_representation=nstored)
 
     # ---- 6. TLC judges
     answers = tlc.oracle("HKOracle", judge_q + [a for _, a in audit], timeout=1500, chunk=400)
     for (hid, _), ans in zip(audit, answers[len(judge_q):]):
         run.count(("audit", hid))
         if not ans["ok"]:
-            run.violation({"site": "models_hk", "adsorbent": ads_tab[hid]["name"], "clause": "parameter table", "observed": "differs from Horvath-Kawazoe 1983",
+            run.violation({"site": "models_hk", "adsorbent": ads_tab[hid]["name"], "clause": "parameter table", "observed": "differs from the published parameter set (reference constants of spec/HK.tla)",
                            "fields": ",".join(sorted(ans["bad"]))}, {})
     ncls = {}
     npub = {}
@@ -372,5 +403,7 @@ def main(tier, seed):
                "'the reported width solves (or brackets a crossing of) the library's own potential' plus the relational clauses")
     run.assume("Cheng-Yang coverage is n/(1.01*max n) (the library's saturation convention); 'non-decreasing in pressure' is judged against the right-hand side "
                "ln p + CY term of the method's equation")
-    run.assume("CODATA 2018 constants, (2/5)^(1/6) = 0.858374219; Carbon(HK) parameters from Horvath & Kawazoe 1983; oxide-ion parameter sets are taken from the library as input data")
+    run.assume("CODATA 2018 constants, (2/5)^(1/6) = 0.858374219; the three built-in adsorbent sets are driven by name and judged with the specification's own reference "
+               "constants (Carbon: Horvath & Kawazoe 1983; oxide ions: Saito & Foley 1991 / Cheng & Yang 1994), the library tables are audited against them")
+    run.assume("isotherms handed to psd_microporous are stored as relative, relative%, absolute bar/kPa/torr, K or degC (absolute ones built with the adsorbate API's own saturation pressure)")
     return run.finish()
